@@ -2,6 +2,7 @@
 from __future__ import annotations
 
 import os
+import re
 import shutil
 import sys
 
@@ -351,7 +352,15 @@ def run_case(case):
 
     def add(clause, disc, detail):
         sig = f"C10|{clause}|{disc}"
-        key = f"{label}|{detail.split('(')[-1].rstrip(')') if '(' in detail else ''}"
+        # the witness key names the configuration AND the crash point (event kind + path, temp-directory names and event numbers normalised),
+        # so that a known finding at one crash point does not cover a new one in the same configuration
+        m = re.search(r"fault at event \d+/\d+: (\S+) ([^)|]+)", detail)
+        if m:
+            point = m.group(1) + " " + re.sub(r"tmp/tmp[^/]+", "tmp/<T>", m.group(2).strip())
+        else:
+            m = re.search(r"(stage:[a-z]+:\w+|after a forced run crashed at event \d+)", detail)
+            point = m.group(1) if m else ""
+        key = f"{label}|{point}"
         if (sig, key) not in seen:
             seen.add((sig, key))
             found.append({"sig": sig, "key": key, "msg": f"{detail} | {label}"})
